@@ -244,7 +244,7 @@ class PseudoOperand(Operand):
                 size=self.value.byte_len(),
                 max_size=self.value.byte_len()
             ) if self.value.is_multi_byte() else CodePackage(
-                additional=NumericValue(self.value.int, size_hint=2),
+                additional=fit_value(self.value, 2),
                 size=1,
                 max_size=1
             )
@@ -255,7 +255,7 @@ class PseudoOperand(Operand):
                 size=self.value.byte_len(),
                 max_size=self.value.byte_len()
             ) if self.value.is_multi_word() else CodePackage(
-                additional=NumericValue(self.value.int, size_hint=4),
+                additional=fit_value(self.value, 4),
                 size=2,
                 max_size=2
             )
